@@ -24,8 +24,10 @@ def add_order(case, rng, p=0.5):
     out = []
     for l in case:
         out.append(l)
-        if l.split()[0] in ('insf', 'ins', 'rmmax', 'prunef', 'pruned', 'batch') and rng.random() < p: out.append('order')
-    out.append('order')
+        if l.split()[0] in ('insf', 'ins', 'rmmax', 'prunef', 'pruned', 'batch') and rng.random() < p:
+            out.append('order')
+            if rng.random() < 0.4: out.append('orderinf %d' % rng.randrange(0, 6))     # initialize_filtration(ignore_infinite_values = true), values >= K made infinite
+    out.append('order'); out.append('orderinf %d' % rng.randrange(1, 5)); out.append('order')
     return [l for l in out if l != 'obs'] + ['cplx']
 
 
@@ -42,7 +44,7 @@ def gen_mfnd(rng, contig=False):
             s = rng.choice(sorted(r.c)); f = rng.randrange(0, 7)
             lines.append('assign %d %s' % (f, ' '.join(map(str, s)))); r.assign(f, s)
         if rng.random() < 0.5: lines.append('order')      # populate the order cache on the non-monotone values: mfnd has to drop it itself
-        lines += ['mfnd', 'cplx', 'order']; r.mfnd()
+        lines += ['mfnd', 'cplx', 'order', 'orderinf %d' % rng.randrange(1, 7), 'order']; r.mfnd()
         if rng.random() < 0.4:
             f = rng.randrange(0, 6)
             r2 = r.copy(); r2.prunef(f)
@@ -64,7 +66,7 @@ def gen_extend(rng, contig=False):
         s = sorted(rng.sample(range(U), rng.randrange(2, min(U, 4) + 1)))
         f = max(vals[v] for v in s) + rng.randrange(0, 3)
         lines.append('insf %d %s' % (f, ' '.join(map(str, s)))); r.insf(f, s)
-    lines += ['extend', 'cplx', 'order']
+    lines += ['extend', 'cplx', 'order', 'orderinf %d' % rng.choice([-2 * max(D, 1), -max(D, 1), 0, max(D, 1), 2 * max(D, 1)]), 'order']
     return lines
 
 
